@@ -412,6 +412,7 @@ func consCoreScenario(prop, tier string, idx int) *consScenario {
 		}
 		sc.StartKind, sc.StartOff = []string{"literal"}, []int64{sc.Base + int64(s)}
 		sc.ShuffleAborted = idx%2 == 0 || c.pat >= 4
+		sc.AbortedBeyond = []int64{0, 4, 1000}[idx%3]
 	}
 	if sc.Aborted == nil {
 		sc.Aborted = [][]sarama.VSimAborted{nil}
